@@ -25,6 +25,72 @@ CHECKS = {
             "Trusted base: vf/refs_si.py (exact inch, pound, grain, nmi, g0, conventional mmHg; NATO mil). "
             "Tangent units are exercised only for angles they can express (|angle| < 1.5 rad).",
             "3/C06"),
+    "C08": ("grid + random sampling of the real Atmo/Vacuum objects against an independently written ISA model and "
+            "the statement's self-consistency relations",
+            "The real atmosphere code is executed on an altitude grid (-1400..36000 ft) and on random station/query pairs, "
+            "(T,P,RH) pairs, humidity conventions and vacuum stations; ISA values to 1e-4, cross-altitude consistency to "
+            "1e-4, exact station values, the +-30 ft seam bounded by the 30-ft lapse computed from the station's own values, "
+            "strict monotonicity, fraction/percent equivalence, rejections.  Inputs are low-dimensional and the functions "
+            "smooth, so dense sampling is adequate.",
+            "Trusted base: ISA constants in vf/checks/c08.py.  At exactly 30 ft (+-1e-6) either branch is accepted.",
+            "3/C08"),
+    "C09": ("node / one-ulp-either-side / midpoint sweep of the real TrajectoryCalc.drag_by_mach after the solver's own "
+            "_init_trajectory, oracle = Lagrange polynomials + golden table snapshot + rho0*pi/1152",
+            "For the nine shipped tables and hundreds of random custom tables the drag the solver actually uses is read "
+            "back at every node, one ulp either side, every midpoint and its neighbours, interior and out-of-table points, "
+            "and must lie on one of the polynomials the statement allows (1e-9 + rounding amplification); the retardation "
+            "constant and BC division are checked from the node values; shipped tables are compared with a golden snapshot "
+            "before and after a battery of library calls and against the 5 % linear band.",
+            "Trusted base: vf/golden/drag_tables.json (sha-256 per table) as 'the published tables'; rho0 = 0.076474 lb/ft^3.",
+            "3/C09"),
+    "C13": ("history monitor with a shadow model over a pool of quantities (random op sequences on the real objects, "
+            "whole pool re-read bit-exactly after every operation)",
+            "Random histories of conversions, reads, formatting, hashing, comparisons, foreign-unit reads and library calls "
+            "run on a pool of 30 real quantities; a shadow records every quantity's value in every unit of its dimension "
+            "and its hash at construction; after every operation the entire pool is re-read and compared bit-for-bit, "
+            "comparisons are checked against raw magnitudes, equal magnitudes must hash/set-collapse equally and every "
+            "foreign-unit read must raise UnitConversionError.",
+            "Shadow values are the library's own answers at construction (immutability, not SI accuracy = C06). "
+            "Cross-dimension equality between quantities is not asserted.",
+            "3/C13"),
+    "C14": ("effective-BC law at every table node + deep input snapshots before/after + repeated construction on the real "
+            "DragModelMultiBC",
+            "Random BC point lists (by Mach / velocity in any unit, shuffled) x table forms (dict list, DragDataPoint list "
+            "taken from a donor model, fresh points, custom tables) x with/without weight: every node's effective BC is "
+            "compared with an independent clamped piecewise-linear interpolation (1e-9); table, points and donor model are "
+            "snapshotted bit-exactly around two successive builds; single-point models are compared with DragModel "
+            "including a fired trajectory.",
+            "Velocity points converted with the standard 15 C speed of sound; order of the caller's point list not asserted.",
+            "3/C14"),
+    "C16": ("invariant checker on every DangerSpace returned by the real HitResult.danger_space over generated "
+            "trajectories and requests",
+            "Extra-data trajectories (flat zeroed, arcing, inclined, sight above/below bore, steps 1-100 ft) are queried at "
+            "ranges on both branches with increasing target heights in all distance units; each result is checked row by "
+            "row against the statement (bracketing rows, every in-between row inside the target, bounds outside or end "
+            "rows, monotone in height), plus the two rejections.",
+            "'drop' = drop relative to the sight line (target_drop).",
+            "3/C16"),
+    "C17": ("algebraic checker of the linear law / calibration reproduction on the real Ammo, and of the launch speed "
+            "observed in the first row of a real fire()",
+            "Thousands of random (velocity, temperature, modifier | second measurement) cases in all units, bare or "
+            "explicit, all four sign combinations of the calibration pair, degenerate pairs, and launches under "
+            "atmospheres with and without explicit powder temperature.",
+            "The law is evaluated in the library's own m/s / Celsius reading of the inputs (unit accuracy is C06).",
+            "3/C17"),
+    "C19": ("algebraic checker of clicks = correction / effective click on the real Sight for random sights and "
+            "corrections (direct and from real trajectory rows)",
+            "Random FFP/SFP/LWIR sights with unequal click sizes in all 9 angular units (bare or explicit), distances in "
+            "all units, magnifications, corrections of both signs, linearity and sign, and the four construction rejections.",
+            "Click sizes converted with R-SI; SFP product accepted in either linear reading (differ < 1e-6 for tangent units only).",
+            "3/C19"),
+    "C20": ("differential against a sequential scan on synthetic (real row constructor) and real trajectories for every "
+            "look-up function",
+            "Synthetic trajectories of length 0..40 with repeated values and real fired trajectories are queried below / "
+            "on / between / beyond every recorded value in all distance units; every accessor and helper is compared with "
+            "a 5-line sequential scan, including sentinels (-1, NaN, ArithmeticError), ValueError on negative inputs, "
+            "nearest-time ties and the apex helper on single-peaked sequences.",
+            "The scan applies the same comparison predicate row by row.",
+            "3/C20"),
 }
 
 PENDING = {}
